@@ -275,6 +275,22 @@ PROPS = {
         trusted_base=[GO_LIBS, "OS timers and scheduler", "gRPC connectivity state", "go-pfcp codecs"],
         assumptions=["timer jitter below 30% of resp_timeout (80 ms)"],
     ),
+    "C10": dict(
+        lean=["Upf.Props.C10"],
+        level="proof",
+        claim="On the interleaving model Life (node + any number of associations, Shutdown at channel-operation granularity, Go's two panics as outcomes): with the two "
+              "structural facts REGENERATED from conn.go/node.go (Shutdown runs under sync.Once; the node blocks for the associations' reports and does not close the "
+              "channel first) no interleaving panics; the deletion ledger (deleted ++ to-delete) of an association is constant at every step; without the guard the "
+              "two-trigger schedule panics (proved). T2: scripted and randomly paced runs of the REAL agent for 9 trigger scripts x 0/1/3 associations with sessions: "
+              "exit in bounded time, no panic, every installed entry deleted exactly once, fresh association from the same address accepted, others unaffected.",
+        note="partial: the Go scheduler, fairness, timers and sockets are not modelled; the tie from the skeleton to the real interleavings is the two syntactic facts "
+             "and sampling by repetition. The model deletes sessions from a shared list, so 'exactly once' rests on the once-guard (stated).",
+        rule="scripts stop / stop-inflight / release+stop / release / timeout / hbdead / timeout+hbdead / hbdead+stop / release+release x {0,1,3} associations x "
+             "0-2 sessions each x repetitions with random microsecond offsets; non-trivial = every run",
+        trusted_base=[GO_LIBS, "OS scheduler/timers", "fake BESS command log"],
+        assumptions=["fair scheduling (a runnable goroutine eventually runs)"],
+        timeout={"quick": 900, "thorough": 7200},
+    ),
 }
 
 NOT_APPLICABLE = {}
